@@ -102,6 +102,22 @@ def predictInPlaceG (m : POMDP) (b : Vec) (a : Nat) : Nat → Vec
     let v := predictInPlaceG m b a n
     fun k => if k = n then predictCellInPlace m a v n m.S else v k
 
+/-! The two in-place models above are chains of closures: evaluating cell `k` of step `n` re-evaluates step `n-1`
+  for every read, exponentially in `n`.  The driver therefore runs the list-state versions below, which
+  `AITB.Props.C05` proves equal to them entry by entry (`unnormInPlaceL_eq`, `predictInPlaceL_eq`). -/
+
+def unnormInPlaceL (m : POMDP) (a o : Nat) : Nat → List Rat → List Rat
+  | 0, st => st
+  | n+1, st =>
+    let st' := unnormInPlaceL m a o n st
+    st'.set n (m.Ob n a o * sumTo m.S (fun s => m.T s a n * st'.getD s 0))
+
+def predictInPlaceL (m : POMDP) (a : Nat) : Nat → List Rat → List Rat
+  | 0, st => st
+  | n+1, st =>
+    let st' := predictInPlaceL m a n st
+    st'.set n (predictCellInPlace m a (fun i => st'.getD i 0) n m.S)
+
 /-- the Eigen branch on a SPARSE model called in place: assigning a sparse expression to a dense vector
     clears the destination first (`dst.setZero()`) and then adds the stored entries, so with `br` aliasing `b`
     the factor `b` is already zero when `O_a.col(o).cwiseProduct(…b…)` is evaluated
